@@ -600,4 +600,28 @@ theorem foldSlot_empty (de : FieldSpec → V → Except ε R) (f : FieldSpec) (v
       | none => simp at hl
       | some x => rw [hl] at h3; cases h3
 
+theorem loop_append (schema : Schema) (de : FieldSpec → V → Except ε R) :
+    ∀ (a b : List (Key × V)) (st : List (Slot R)),
+      loop schema de (a ++ b) st =
+        match loop schema de a st with
+        | .ok st' => loop schema de b st'
+        | .error e => .error e := by
+  intro a
+  induction a with
+  | nil => intro b st; simp [loop]
+  | cons p a ih =>
+    intro b st
+    obtain ⟨k, v⟩ := p
+    simp only [List.cons_append, loop]
+    cases fieldOf (ε := ε) schema k with
+    | error e => rfl
+    | ok t =>
+      cases t with
+      | none => exact ih b st
+      | some i =>
+        simp only
+        cases stepAt de schema st i v with
+        | error e => rfl
+        | ok st' => exact ih b st'
+
 end Jomini.Derive
